@@ -452,7 +452,7 @@ static void child_loop(int from_parent, int to_parent, const std::string &dir, i
             case 7: { raise(SIGKILL); break; }
             case 8: { // reader: open the named file read-only and list it
                 cur = dir + (arg == 99 ? "/shared.nix" : "/p" + std::to_string(arg / 2) + "_" + std::to_string(arg % 2) + ".nix");
-                File g = File::open(cur, FileMode::ReadOnly); out << "ok"; list_ids(g, cur, out); g.close(); break; }
+                File g = File::open(cur, (sub % 3) == 1 ? FileMode::ReadWrite : FileMode::ReadOnly); out << "ok"; list_ids(g, cur, out); g.close(); break; }
             default: out << "skip";
             }
         } catch (const std::exception &e) {
@@ -596,7 +596,8 @@ int run_special(World &w, const Plan &p, const std::string &dir) {
             std::ostringstream rc;
             int arg = 99;
             if (file.find("shared.nix") == std::string::npos && file.size() > 3) { int pi = atoi(file.c_str() + 1); size_t us = file.find('_'); int which = atoi(file.c_str() + us + 1); arg = pi * 2 + which; }
-            rc << clk[(size_t) k] + 5 << " 8 " << arg << " 0\n";
+            rc << clk[(size_t) k] + 5 << " 8 " << arg << " " << (((unsigned) op.a[5]) % 3) << "\n";
+            w.cnt.inc((((unsigned) op.a[5]) % 3) == 1 ? "kill.reader_opens_rw" : "kill.reader_opens_ro");
             write_all(rdr.to, rc.str());
             std::string rr;
             if (!read_line(rdr.from, rr)) { w.fail("C11.image-complete", "reader process died opening the file left by a killed writer"); break; }
